@@ -47,7 +47,7 @@ SPEC = dict(
              ev=dict(requires=["V.lib.Bytes", "V.models.Timer", "V.models.TimerText"], case_type="TimerText.tcase",
                      mismatch="TimerText.tmismatch", monitor="TimerText.tmonitor_fail")),
         dict(name="manager", kind="test", pkg="./overlord/snapstate", run="TestVerifC16Manager", env=dict(TZ="UTC"),
-             n=dict(quick=120, thorough=1500), timeout=dict(quick=300, thorough=1800),
+             n=dict(quick=120, thorough=600), timeout=dict(quick=300, thorough=1800),
              ev=dict(requires=["V.lib.Bytes", "V.models.Timer", "V.models.TimerText", "V.models.AutoRefresh"], case_type="AutoRefresh.mcase",
                      prelude="Open Scope Z_scope.", mismatch="AutoRefresh.mmismatch", monitor="AutoRefresh.mmonitor_fail")),
     ],
@@ -63,19 +63,29 @@ SPEC = dict(
           "numbered ends, stray separators, upper case, blanks), grammar timers, random text over the timer alphabet and valid timers with 1-2 "
           "characters changed/inserted/removed; the model parser's verdict and AST and the model formatter's bytes are compared with the real ones. "
           "top cases include boundary placement: last+maxd at the first offered window's start-1s/start/start+1s/start-59..61min/middle/end-1s/end/end+1s. "
-          "Non-trivial = accepted timer."),
+          "manager: histories of 2-6 steps (set refresh.timer / initial last-refresh / Ensure) against the real autoRefresh manager with the "
+          "fixtures of autoRefreshTestSuite (fake store recording list-refresh = an attempt); timers are written relative to the time the history "
+          "starts (Ensure reads the real clock): `{+N}` = HH:MM in N minutes, `{d+K}` = weekday in K days; enumerated: planned under A, timer changed to B "
+          "(earlier / later / unset / managed / invalid / back to A), first refresh ever, overdue, limit just ahead; plus random histories with valid, "
+          "invalid, unset and managed timers. Observed per Ensure: nextRefresh, attempt. "
+          "Non-trivial = accepted timer / a history that planned or attempted."),
     exhaustive=dict(quick=False, thorough=False),
     trusted_base=[
         "hand-written model coq/models/Timer.v of timeutil/schedule.go and coq/lib/Civil.v (proleptic Gregorian calendar), tied by the differential run "
         "(harness/overlay/timeutil/zz_verif_c16_test.go); window, Includes and delay results are compared exactly",
         "hand-written model coq/models/TimerText.v of ParseSchedule (incl. the validTime regexp as a hand-written matcher) and Schedule.String, tied by the `text` driver; "
         "decimal printing/parsing through coq/lib/Dec.v (N.to_uint / N.of_uint)",
+        "translators/refreshconsts.go (go/ast): maxPostponement, refreshRetryDelay, default timer; shape of the timer-change check in autoRefresh.Ensure and of the timeutil.Next call sites",
+        "hand-written model coq/models/AutoRefresh.v of the planning logic of autoRefresh.Ensure, tied by the `manager` driver (harness/overlay/overlord/snapstate/zz_verif_c16_test.go); "
+        "autoRefresh.Ensure reads the real clock, so histories run at the current time with timers relative to it (replay reproduces the relative history, not the absolute times); 2 s slack on observed times",
         "UTC only: time zones and DST are not modelled (Go's time package is trusted for UTC date arithmetic)",
         "randutil.RandomDuration is not modelled: for spread windows the delay is checked to lie in [start-now, start-now+bound)",
     ],
     assumptions=["PARTIAL: (a) termination of Schedule.Next's day search is not proved; C16_in_window_partial is conditional on the search succeeding within the fuel "
                  "(400 days in the differential run; a case that needed more would be reported as a mismatch); "
-                 "(b) the call site in overlord/snapstate/autorefresh.go (timeutil.Next(refreshSchedule, lastRefresh, maxPostponement), maxPostponement = 95 days) is read, not extracted.",
+                 "(b) manager level: refresh.hold / gating holds, metered connections, the legacy refresh.schedule option, store failures and changes in flight are not modelled "
+                 "(the driver keeps them out); advancing the clock cannot be played (Ensure uses time.Now), so `an attempt at its planned time` is covered by the theorem and by "
+                 "checking every PLANNED time, not by waiting for it.",
                  "C16_limit is proved for any list of windows, i.e. for any schedule functions",
                  "the format->parse round trip holds up to norm_sched (Spread/Split of spans with end = start are not printed); theorem and driver use the same normalisation",
                  "all times UTC, whole seconds"],
